@@ -101,6 +101,7 @@ func TestCheck(t *testing.T) {
 	defer r.Finish()
 	r.SetRule("Hashes = (type in {0..6, 7, 100, 2^31-1, -1, -2^31}) x (digest length 0..40, 64) x (digest content from {true digest of the data under each known algorithm cut or padded to the length, true digest with one bit flipped (all 256/160 bits for the exact-length case), zeros, PRNG}) x (data of length 0,1,55,56,64,100,1000, PRNG). " +
 		"Oracle (reference model from the property text; digests by crypto/sha256, crypto/sha1 streaming and lukechampine.com/blake3, anchored by known-answer vectors): VerifyData(d) succeeds <=> type known and stored digest == reference digest of d (exact length); Sum succeeds <=> type known and then equals the reference; Validate ok => (type known and length right) or the all-zero 'no hash' value; CompareHash <=> (type, bytes) equal; a hash other than the all-zero value survives MarshalString/ParseFromB58, MarshalDigest+MarshalVT/UnmarshalVT and (valid hashes) MarshalJSON/UnmarshalHashJSON unchanged into a fresh object. " +
+		"Large data (1023 B .. 150000 B at / one below / one above the powers of two from 1 KiB and the multiples of 64 KiB, all three algorithms; 1 MiB+1 once per run): Sum / HashType.Sum / BuildHasher fed in 64 KiB, 4 KiB and 1000-byte writes must equal the reference digest of ALL the data, VerifyData must accept the data, reject every variant that differs only at its end (last byte, first / random byte of the last partial block for block sizes 64 B..128 KiB flipped, last block zeroed / dropped, one byte dropped / appended, extended to the block boundary; complementary: a byte in the full blocks) and reject the data against the reference digest of its leading full blocks. " +
 		"Arbitrary encoded inputs (PRNG bytes, PRNG base58/JSON text, mutated valid encodings): no panic; a successful parse must re-encode and re-parse to the same (type, digest) and Validate/VerifyData on it must not panic. " +
 		"Decoded hashes: for hashes (true digest of the data under each algorithm, bit-flipped / cut / extended, the right digest under another, unknown or no type, empty) the harness' own protobuf-wire / base58 / JSON writers emit alternative encodings of the same (type, digest): extra unrecognised fields (varint, fixed32/64, bytes, nested message; field numbers 3..2^29-1) appended / prepended / between, fields in the other order, non-minimal varints in tags, type value and digest length, duplicated fields (last wins), explicit zero values, type varints wider than 32 bits, and PRNG compositions of these; JSON: enum by number or name, proto field name, other order, unknown (nested, look-alike) fields, base64url / unpadded digests, duplicate keys. Each is decoded with UnmarshalVT / ParseFromB58 / UnmarshalHashJSON and the DECODED object is judged by its (type, digest) with the same model: decoded value = encoded value (forms that the wire/JSON rules leave open are only counted); VerifyData <=> reference (on the data and on other data); Validate ok => well-formed; CompareHash with an in-process hash of the same value is true in both directions and false for another digest/type; Clone keeps the value; MarshalString/MarshalDigest/MarshalVT/MarshalJSON of the decoded object decode to the same value, and VerifyData holds on the re-decoded objects. A decoder rejecting a foreign form is counted, not flagged. " +
 		"A case is non-trivial when the code under test returned (no panic) and the model produced a verdict; distinct = distinct (operation, type, digest, data).")
@@ -737,6 +738,9 @@ func TestCheck(t *testing.T) {
 			r.Violation("roundtrip/parsed/changed", "a parsed hash changed across re-encoding", w)
 		}
 	})
+	// ---------------- large data at / around block boundaries, altered tails
+	largePart(r)
+
 	// ---------------- hashes obtained by decoding alternative encodings
 	decodedPart(r)
 
